@@ -131,6 +131,8 @@ def payload_of(t, i):
 LIST2 = ['flush', 'readw', 'readw', 'clse']          # list whose reply arrives in two WRITEs
 PUSH2 = ['flush', 'flush', 'readw', 'clse']          # push that needs two WRITEs (maxdata 64, 40 bytes)
 PUSH2FAIL = ['flush', 'flush', 'readw', 'raise']     # the same push rejected by the device right after SEND
+PULLFAIL = ['pullfail']                               # exploration only: a pull whose local sink raises at its first write, while the device
+                                                      # still has a WRITE (the DONE record) in flight; the stream is then closed by the host
 
 
 class World(object):
@@ -212,6 +214,8 @@ class World(object):
             cut = None
             if p == LIST2:
                 cut = lambda b: [b[:7], b[7:]]  # noqa
+            if p == PULLFAIL:
+                cut = lambda b: [b] if len(b) < 20 else [b[:9], b[9:-8], b[-8:]]  # noqa  (the DATA record in two WRITEs, the DONE record in a third)
             return simdev.SyncService(dev, plan=plan, cutter=cut)
         return None
 
@@ -223,6 +227,13 @@ class World(object):
             return lambda: d.shell(t, decode=False)
         if p == ['close']:
             return lambda: d.close()
+        if p == PULLFAIL:
+            import io as _io
+
+            class FullDisk(_io.BytesIO):
+                def write(self, b):
+                    raise OSError(28, 'No space left on device (injected)')
+            return lambda: d.pull('/' + t, FullDisk())
         if p == []:
             return lambda: d.reboot()
         if p == ['flush', 'readw', 'clse']:
@@ -430,6 +441,8 @@ def api_name(p):
         return 'shell'
     if p == ['close']:
         return 'close'
+    if p == PULLFAIL:
+        return 'pull'
     if p == []:
         return 'reboot'
     if p == LIST2:
